@@ -157,8 +157,13 @@ class Loader(yaml.SafeLoader):
             node, expected_type))
 
         # figure out how to interpret this node
-        recognized_types, result = self.__recognizer.recognize(
-            node, expected_type)
+        try:
+            recognized_types, result = self.__recognizer.recognize(
+                node, expected_type)
+        except SeasoningError as e:
+            # raised by Node.get_attribute() for duplicate keys
+            raise RecognitionError(
+                    '{}\n{}'.format(node.start_mark, e.args[0]))
 
         if len(recognized_types) != 1:
             raise RecognitionError(format_rec_error(result))
@@ -218,7 +223,11 @@ class Loader(yaml.SafeLoader):
                                 node.start_mark))
                     cnode = Node(node)
                     if cnode.has_attribute(attr_name):
-                        subnode = cnode.get_attribute(attr_name)
+                        try:
+                            subnode = cnode.get_attribute(attr_name)
+                        except SeasoningError as e:
+                            raise RecognitionError('{}\n{}'.format(
+                                node.start_mark, e.args[0]))
                         new_subnode = self.__process_node(
                             subnode.yaml_node, type_)
                         cnode.set_attribute(attr_name, new_subnode)
